@@ -4,6 +4,10 @@ import json, subprocess
 
 # id -> (technique, level text, level note, design ref)
 CHECKS = {
+ "C09": ("reference-evaluator monitor for include/includeIfExists/exec call sites plus a probe-log oracle for exec return values (value == last return recorded in the observed call log)",
+         "Exploration: generated sets with include/exec/includeIfExists sites at depth <=3 (inside range, blocks, try, other includes; static, computed and per-iteration names; with/without context; targets extending 1-2 levels) compared with the model, which inlines the target's root ancestor in a fresh scope with includer variables and blocks visible; 2500 generated exec targets per run with returns at every position, decided from the observed probe log without modelling which returns run.",
+         "Trusts the reference evaluator for include semantics; for exec values only the recorded call log is trusted. Failures after a return inside the same try body are not generated (unspecified).",
+         "DESIGN.md 3/C09"),
  "C05": ("reference-evaluator monitor: generated if/range programs executed by the real engine and by an independent model; output, errors, probe call log and caller VarMap compared",
          "Exploration: nestings of if/else-if/else and range (all three variable forms, := and =, else branches) over every rangeable kind, with conditions of every kind (42 opaque conditions of known truthiness incl. fractional floats, narrow ints, interfaces holding false/0/\"\"), compared byte for byte with the reference evaluator.",
          "Trusts the reference evaluator (internal/prog, ~600 lines, itself validated against the unchanged tree on >10^5 programs). Multi-entry maps are left to the directed self-consistency cases of C07; zero-valued arrays/structs as conditions are not generated.",
